@@ -31,7 +31,7 @@ fn c18b_lzip_option_clamps() {
 }
 
 // C03-B / C02-G: member header layout: "LZIP", version 1, dictionary byte that decodes to a size covering the encoder's.
-//@ {"name":"c03b_lzip_member_header","props":["C03","C02"],"obligation":"C03-B","timeout":1500,"mem_gb":9,"stubbing":true,"functions":["lzip::writer::LZIPWriter::new","lzip::writer::LZIPWriter::start_new_member","lzip::encode_dict_size","enc::lzma_writer::LZMAWriter::new_no_header"],"bounds":"dict_size 5000 (concrete, not exactly representable); no data written; unwind 10","assumes":["LZMAEncoder::new stubbed (verif_cheap_encoder)"],"stubs":["LZMAEncoder::new -> verif_cheap_encoder"]}
+//@ {"name":"c03b_lzip_member_header","no_inputs":true,"props":["C03","C02"],"obligation":"C03-B","timeout":1500,"mem_gb":9,"stubbing":true,"functions":["lzip::writer::LZIPWriter::new","lzip::writer::LZIPWriter::start_new_member","lzip::encode_dict_size","enc::lzma_writer::LZMAWriter::new_no_header"],"bounds":"dict_size 5000 (concrete, not exactly representable); no data written; unwind 10","assumes":["LZMAEncoder::new stubbed (verif_cheap_encoder)"],"stubs":["LZMAEncoder::new -> verif_cheap_encoder"]}
 #[kani::proof]
 #[kani::unwind(10)]
 #[kani::stub(crate::enc::encoder::LZMAEncoder::new, crate::enc::encoder::verif_stubs_enc::verif_cheap_encoder)]
